@@ -735,7 +735,9 @@ def play(h, events, model, base_dir=None, tail=None):
             if d['declined'] == '1':
                 run.items.append('declined %d %s %s %s' % (pr['id'], pr['src'], dest_code(pr['dst']), d['child']))
             else:
-                run.items.append(pr_item(pr, d['stage'], orc, sel))
+                # the flag this evaluation ran with (the model computed it from the option state: command line or
+                # a comment `@robot no_octopus`); the item is replayed by every later line of this history
+                run.items.append(pr_item(pr, d['stage'], orc, sel, 'no_octopus' in d['opts'].split(',')))
             run.sha2id = new_ids
             out['evals'].append((status, d['stage']))
             if len(out['samples']) < 2 and status in ('ApprovalRequired', 'BuildFailed', 'Queued'):
